@@ -6,8 +6,6 @@ COMMON_ASSUMPTIONS = [
 ]
 
 CHECKS = {
-    "RIBQ": dict(runs=[dict(pkg="rib", harness=h, reach=["end","pre-built"]) for h in ("VfRIB_q3",)], level_text="", level_note=""),
-    "SMOKE": dict(runs=[dict(pkg="rib", harness="VfSmoke_AddNH", reach=["end","zero","installed"])], level_text="", level_note=""),
     "C05": dict(
         runs=[
             dict(pkg="server", harness="VfC05_isNewMaster", bounds="all 2^256 (candidate, existing) id pairs; no loops"),
@@ -22,14 +20,19 @@ CHECKS = {
 
 CHECKS["C04"] = dict(
     runs=[dict(pkg="server", harness="VfC04_doModify", load=["server"],
-               bounds="session table {A,B} arbitrary; election state arbitrary; calling session any string; batch of 1-2 next-hop ADDs each with nil or arbitrary 128-bit election id")],
+               bounds="session table {A,B} arbitrary; election state arbitrary; calling session any string; batch of 1-2 next-hop ADDs each with nil or arbitrary 128-bit election id"),
+          dict(pkg="server", harness="VfC04_history2", reach=["end"], thorough=dict(skip=True),
+               bounds="histories from the initial state: 2 election announcements by sessions A/B in any order with arbitrary non-zero 128-bit ids (through runElection), then one operation from either session stamped with an arbitrary id; the primary is computed by the harness with true 128-bit ordering"),
+          dict(pkg="server", harness="VfC04_history3", reach=["end"], quick=dict(skip=True), bounds="as history2 with 3 announcements")],
     assumptions=["RIB effect observed through next-hop ADD operations in the default network instance (the RIB's own behaviour is C01's)"],
     level_text="Bounded symbolic execution of doModify/modifyEntry/checkElectionForModify from an arbitrary session table and election state: for every id triple (operation, session, server) the solver decides whether the RIB was reached.",
     level_note="Trusted: go/ssa, gosym, z3, rib models (candidateRIB/MergeStructInto, validated by TestVfModelAgreement). Interleavings finer than one message are C11's.",
 )
 CHECKS["C08"] = dict(
     runs=[dict(pkg="rib", harness="VfC08_flush_q", reach=["end", "pre-built"], thorough=dict(skip=True), opts=dict(only=["C08:", "C01:", "C03:"]),
-               bounds="canonical pre-state: 1 next-hop, 1 group (optional backup id: missing/self/other), 1 top-level entry (either instance, optional cross-instance reference); Flush of {default}, {vrf} or both"),
+               bounds="canonical pre-state: 1 next-hop, 1 group (either instance; optional backup id: missing/self/other), 1 top-level entry (either instance, optional cross-instance reference); Flush of {default}, {vrf} or both"),
+          dict(pkg="rib", harness="VfC08_flush_qx", reach=["end", "pre-built"], opts=dict(only=["C08:", "C01:", "C03:"]),
+               bounds="a next-hop and a group in each instance, 2 IPv4 entries in either instance (implicit and explicit group instances); Flush of {default}, {vrf} or both"),
           dict(pkg="rib", harness="VfC08_flush_t", reach=["end", "pre-built"], quick=dict(skip=True), opts=dict(only=["C08:", "C01:", "C03:"]),
                bounds="as flush_q with 2 groups (shared backup ids), 1 held operation, all top-level kinds, slots in either instance, every map iteration order (n<=3)"),
           dict(pkg="server", harness="VfC08_flushDecision", reach=["authorised", "no-instance", "missing-election-field", "unexpected-election-id", "zero-id", "lower-id", "unknown-instance"],
@@ -56,6 +59,10 @@ def _rib(only, quick, thorough):
         rs.append(dict(pkg="rib", harness=h, reach=["end", "pre-built"], thorough=dict(skip=True), opts=dict(only=only), bounds=b))
     for h, b in thorough:
         rs.append(dict(pkg="rib", harness=h, reach=["end", "pre-built"], quick=dict(skip=True), opts=dict(only=only), bounds=b))
+    for r in rs:
+        if r["harness"] in ("VfRIB_qo", "VfRIB_tOrder"):
+            r["replay_attempts"] = 40   # counterexamples depend on Go's randomised map iteration order
+            r["replay_candidates"] = 4
     return rs
 
 _B = dict(
@@ -67,7 +74,9 @@ _B = dict(
     VfRIB_tOrder="pre-state 1 next-hop, 1 group, 2 held operations; one symbolic next-hop/group ADD/REPLACE; every iteration order of the held-operation map",
 )
 _B["VfRIB_q3"] = "pre-state 1 next-hop, 1 group, 1 stale held REPLACE (its key was deleted after it was held); one symbolic operation"
-_RQ = [(h, _B[h]) for h in ("VfRIB_q1", "VfRIB_q2", "VfRIB_qNoFwd")]
+_B["VfRIB_qx"] = "cross-instance references: a next-hop and a group in EACH of the two instances (the same group id may exist in both), 1 IPv4 entry in either instance with optional explicit group instance; one symbolic IPv4 ADD/REPLACE/DELETE (retargeting a reference between instances / groups)"
+_B["VfRIB_qo"] = "acknowledgement order: 1 next-hop, 2 held IPv4 entries (possibly the same key, different payloads) waiting for a group; one symbolic group ADD/REPLACE; every iteration order of the held-operation map (native replay repeated up to 40 times since Go randomises map order)"
+_RQ = [(h, _B[h]) for h in ("VfRIB_q1", "VfRIB_q2", "VfRIB_qNoFwd", "VfRIB_qx", "VfRIB_qo")]
 _RT = [(h, _B[h]) for h in ("VfRIB_t1", "VfRIB_t2", "VfRIB_tOrder")]
 _RIBNOTE = "Trusted: go/ssa, gosym, z3, the Go models of candidateRIB/MergeStructInto (validated natively by TestVfModelAgreement on the modelled fields), the reference RIB in harness/rib/vf_ref.go. Payload = key, group reference (+instance), entry metadata, group members/weights/backup/colour, next-hop network-instance; other payload fields are outside (C07)."
 CHECKS["C01"] = dict(runs=_rib(["C01:"], _RQ, _RT), assumptions=["pre-states are reference-closed states built by the canonical history (next-hops, groups, entries, held operations); one or two further symbolic operations"],
@@ -75,6 +84,7 @@ CHECKS["C01"] = dict(runs=_rib(["C01:"], _RQ, _RT), assumptions=["pre-states are
 CHECKS["C02"] = dict(runs=_rib(["C02:"], _RQ, _RT), assumptions=["as C01"],
     level_text="Same exploration as C01, checking that every acknowledgement happened in a state where the operation was valid and resolvable, that held operations are kept exactly while unresolvable, for every order of the held-operation walk (thorough).", level_note=_RIBNOTE)
 CHECKS["C03"] = dict(runs=_rib(["C03:"], _RQ, _RT) + [dict(pkg="rib", harness="VfC08_flush_q", reach=["end"], thorough=dict(skip=True), opts=dict(only=["C03:"]), bounds="reference counters after Flush (see C08)"),
+                                                    dict(pkg="rib", harness="VfC08_flush_qx", reach=["end"], thorough=dict(skip=True), opts=dict(only=["C03:"]), bounds="reference counters after Flush, entries and groups in both instances (see C08)"),
                                                     dict(pkg="rib", harness="VfC08_flush_t", reach=["end"], quick=dict(skip=True), opts=dict(only=["C03:"]), bounds="reference counters after Flush (see C08)")],
     assumptions=["as C01"],
     level_text="Same exploration as C01, checking DELETE verdicts against referrers found by scanning the installed entries and the counter==referrers invariant after every operation and after Flush.", level_note=_RIBNOTE)
@@ -89,6 +99,7 @@ CHECKS["C12"] = dict(
     level_note=_RIBNOTE)
 
 _B["VfRIB_q3"] = "pre-state 1 next-hop, 1 group, 1 stale held REPLACE (its key was deleted after it was held); one symbolic operation"
+_B["VfRIB_qx2"] = "cross-instance held operations: a next-hop in each instance, 1 held operation (group or IPv4 entry in either instance, optional explicit group instance); one symbolic next-hop / group ADD that may resolve it from the other instance"
 CHECKS["C06"] = dict(
     runs=[dict(pkg="server", harness="VfC06_doModify", reach=["end"],
                bounds="doModify/modifyEntry/real RIB: elected primary with FIB-ack on/off, 0-1 held operation, a request of 1-2 symbolic operations (next-hop / group / IPv4 entry; ADD/REPLACE/DELETE; any instance name incl. empty and unknown; symbolic keys and references)"),
@@ -96,7 +107,7 @@ CHECKS["C06"] = dict(
                bounds="hand-over of the primary role while an operation is held: one scripted history with symbolic member / next-hop index"),
           dict(pkg="server", harness="VfC06_halfClose", reach=["end"], validate=0, replay_attempts=30, replay_candidates=6, opts=dict(unwind=16),
                bounds="real Server.Modify (3 goroutines) on [params, election, ADD] followed at once by a half-close; every schedule with up to 2 pre-emptive context switches at synchronisation points")]
-         + _rib(["C06:"], [(h, _B[h]) for h in ("VfRIB_q2", "VfRIB_q3")], _RT),
+         + _rib(["C06:", "C02:no-held-operation-is-resolvable", "C02:held-operation-kept"], [(h, _B[h]) for h in ("VfRIB_q2", "VfRIB_q3", "VfRIB_qx2")], _RT),
     assumptions=["response streams are observed at doModify's result channel (the result pump of Modify forwards them unchanged; its scheduling is C10/C11's subject)"],
     level_text="Bounded symbolic execution of doModify + RIB from symbolic requests: per-id verdict counting over the emitted results, RIB-before-FIB order, and held-set bookkeeping (answered xor held) decided for all symbolic keys/references/instance names.",
     level_note=_RIBNOTE)
